@@ -599,6 +599,36 @@ class SymEx:
                     out.add(n.id)
         return out
 
+    def _enum_members(self, v):
+        """iterating an Enum class yields its members in definition order (list(Color), for c in Color)"""
+        w = v
+        while w[0] == 'call' and w[1] in (('ext', 'LIST'), ('ext', 'TUPLE')) and len(w[2]) == 1 and not w[3]:
+            w = w[2][0]
+        if not (w[0] == 'var' and w[1].startswith('class:')):
+            return v
+        c_ = self.M.cls(w[1][6:])
+        if c_ is None or not any(bn.split('.')[-1] in ('Enum', 'IntEnum', 'IntFlag', 'Flag', 'StrEnum') for k_ in c_.mro() for bn in k_.base_names):
+            return v
+        out = []
+        for name, expr in c_.class_attrs.items():
+            if name.startswith('_') or c_.lookup(name) is not None:
+                continue
+            self.frames.append(self.M.module_func(c_.mod))
+            try:
+                r_ = self.ev(expr, State())
+            except Undecided:
+                return v
+            finally:
+                self.frames.pop()
+            if len(r_) != 1 or r_[0][1][0] not in ('num', 'str', 'tuple'):
+                return v
+            lit = r_[0][1]
+            if any(bn.split('.')[-1] in ('IntEnum', 'IntFlag', 'StrEnum') for k_ in c_.mro() for bn in k_.base_names):
+                out.append(lit)
+            else:
+                out.append(('new', 'enum:' + c_.name, (('name', ('str', name)), ('value', lit))))
+        return ('list', tuple(out)) if out else v
+
     def loop(self, s, st):
         is_for = isinstance(s, ast.For)
         if is_for and isinstance(s.iter, ast.Call) and len(s.body) == 1 and isinstance(s.body[0], ast.Expr) and isinstance(s.body[0].value, ast.Yield) \
@@ -609,7 +639,7 @@ class SymEx:
                 return [(x, None) for x, v in self.ev(ast.copy_location(ast.YieldFrom(value=s.iter), s), st)]
         heads0 = None
         if is_for and not self.suppress:
-            heads = heads0 = [(x_, _literal_rows(v_)) for x_, v_ in self.ev(s.iter, st)]
+            heads = heads0 = [(x_, _literal_rows(self._enum_members(v_))) for x_, v_ in self.ev(s.iter, st)]
             if len(heads) == 1 and heads[0][0].exc is None and heads[0][1] in (('list', ()), ('tuple', ()), ('dict', ()), ('set', ())):
                 # nothing to iterate: the body never runs
                 return self.block(s.orelse, heads[0][0]) if s.orelse else [(heads[0][0], None)]
@@ -1631,7 +1661,7 @@ class SymEx:
         r = self.ev(g.iter, State(dict(st.env), dict(st.heap), (), (), dict(st.decided)))
         if len(r) != 1 or r[0][0].exc is not None:
             return None
-        items = _const_items(r[0][1])
+        items = _const_items(self._enum_members(r[0][1]))
         if items is None or not (1 <= len(items) <= 12):
             return None
         names = sorted(self._assigned_names([g.target]))
@@ -2510,9 +2540,21 @@ def _match_to_if(s, site):
     for case in reversed(s.cases):
         t, binds = test(case.pattern, subj)
         if case.guard is not None:
+            guard = case.guard
             if binds:
-                raise Undecided('match: guard on a capturing pattern at %s' % site)
-            t = case.guard if t is None else ast.BoolOp(op=ast.And(), values=[t, case.guard])
+                # the guard sees the captured names: they are plain projections of the subject, so the guard is evaluated on those projections
+                import copy as _copy
+                bm = dict(binds)
+
+                class _Sub(ast.NodeTransformer):
+                    def visit_Name(self, n):
+                        if isinstance(n.ctx, ast.Load) and n.id in bm:
+                            return ast.copy_location(_copy.deepcopy(bm[n.id]), n)
+                        return n
+                if any(isinstance(x, (ast.NamedExpr, ast.Lambda)) for x in ast.walk(guard)):
+                    raise Undecided('match: guard with bindings of its own on a capturing pattern at %s' % site)
+                guard = _Sub().visit(_copy.deepcopy(guard))
+            t = guard if t is None else ast.BoolOp(op=ast.And(), values=[t, guard])
         body = [ast.Assign(targets=[ast.Name(id=n, ctx=ast.Store())], value=v) for n, v in binds] + list(case.body)
         if t is None:
             chain = body
@@ -2685,7 +2727,7 @@ def _const_items(it):
     if it[0] == 'call' and it[1] == ('ext', 'RANGE') and 1 <= len(it[2]) <= 3 and not it[3] and all(a[0] == 'num' and a[1].denominator == 1 for a in it[2]):
         r = range(*[int(a[1]) for a in it[2]])
         return [num(v) for v in r] if len(r) <= 16 else None
-    if it[0] in ('list', 'tuple') and len(it[1]) <= 16 and all(z[0] in ('num', 'str', 'const', 'tuple', 'comp') for z in it[1]):
+    if it[0] in ('list', 'tuple') and len(it[1]) <= 16 and all(z[0] in ('num', 'str', 'const', 'tuple', 'comp') or (z[0] == 'new' and z[1].startswith('enum:')) for z in it[1]):
         return list(it[1])
     return None
 
